@@ -7,6 +7,7 @@ import (
 
 	"github.com/postalsys/muti-metroo/internal/identity"
 	"github.com/postalsys/muti-metroo/internal/protocol"
+	"github.com/postalsys/muti-metroo/internal/transport"
 )
 
 // C07AttachCapturePeer registers, in the REAL peer manager, a connection to `remote` whose
@@ -18,6 +19,7 @@ func C07AttachCapturePeer(m *Manager, remote identity.AgentID, w io.Writer) {
 		LocalID:  m.cfg.LocalID,
 		RemoteID: remote,
 		writer:   protocol.NewFrameWriter(w),
+		streamAlloc: transport.NewStreamIDAllocator(true),
 		closed:   make(chan struct{}),
 		ready:    make(chan struct{}),
 	}
